@@ -2296,7 +2296,9 @@ TASKS = (
 )
 
 META = {
-    "level": "proof",
+    # proof of mechanism: per-construct obligations are discharged symbolically, but deciding steps include bounded child-list lengths and
+    # bounded stand-ins (stated in `assumptions` / bound texts), so the property as a whole is not claimed at level "proof"
+    "level": "other",
     "explanation": "Fold-consistency per node class: the real as_const (children abstract: constant or Impossible) and the emission schema of the real visitor are "
                    "both derived symbolically and shown to compute the same function of the child constants under the spec table of the runtime helpers; plus VCs on "
                    "Optimizer.generic_visit, Const.from_untrusted, optimizeconst, EvalContext.save/revert, emission contracts on visit_Output (compile-time constants vs the "
